@@ -20,6 +20,7 @@ type shadow struct {
 	coins    int
 	locked   bool
 	full     bool // cmp after every request
+	ended    bool // no further requests (the case ran into a known finding whose consequences are open-ended)
 	tags     map[string]bool
 }
 
@@ -38,6 +39,11 @@ func (s *shadow) add(op string) {
 	if s.full || s.rng.Intn(10) < 3 {
 		s.ops = append(s.ops, "cmp")
 	}
+}
+
+// addThenCmp: requests whose commit fails are always followed by a comparison with a restarted wallet
+func (s *shadow) addThenCmp(op string) {
+	s.ops = append(s.ops, op, "cmp")
 }
 
 func (s *shadow) sc() int { return []int{1, 1, 1, 0, 2}[s.rng.Intn(5)] }
@@ -163,8 +169,18 @@ func (s *shadow) randomOp() {
 	sc := s.sc()
 	switch k := rng.Intn(100); {
 	case k < 10:
+		if rng.Intn(5) == 0 {
+			s.addThenCmp(fmt.Sprintf("newaddr sc=%s a=%d cf=1", scopes[sc].name, s.acct(sc)))
+			s.tags["commit-failed"] = true
+			return
+		}
 		s.add(fmt.Sprintf("newaddr sc=%s a=%d", scopes[sc].name, s.acct(sc)))
 	case k < 18:
+		if rng.Intn(5) == 0 {
+			s.addThenCmp(fmt.Sprintf("newchange sc=%s a=%d cf=1", scopes[sc].name, s.acct(sc)))
+			s.tags["commit-failed"] = true
+			return
+		}
 		s.add(fmt.Sprintf("newchange sc=%s a=%d", scopes[sc].name, s.acct(sc)))
 	case k < 24:
 		s.add(fmt.Sprintf("curaddr sc=%s a=%d", scopes[sc].name, s.acct(sc)))
@@ -179,6 +195,11 @@ func (s *shadow) randomOp() {
 		amt := "small"
 		if rng.Intn(7) == 0 {
 			amt = "huge"
+		}
+		if !dry && amt == "small" && rng.Intn(5) == 0 {
+			s.addThenCmp(fmt.Sprintf("createtx sc=%s a=%d dry=0 amt=small nf=0 cf=1", scopes[fsc].name, fa))
+			s.tags["commit-failed"] = true
+			return
 		}
 		s.createTx(fsc, fa, dry, amt, !dry && rng.Intn(6) == 0)
 	case k < 58:
@@ -299,6 +320,36 @@ func (s *shadow) scenario(k int) {
 		s.add("unlock")
 		s.locked = false
 		s.createTx(sc, 0, true, "small", false)
+	case 6: // the COMMIT of an address-issuing request fails: indices must not move, the next request re-issues
+		s.fund(sc, 0)
+		kinds := []string{
+			fmt.Sprintf("newaddr sc=%s a=0 cf=1", scopes[sc].name),
+			fmt.Sprintf("newchange sc=%s a=0 cf=1", scopes[sc].name),
+			fmt.Sprintf("createtx sc=%s a=0 dry=0 amt=small nf=0 cf=1", scopes[sc].name),
+		}
+		for i := 1 + rng.Intn(3); i > 0; i-- {
+			s.addThenCmp(kinds[rng.Intn(len(kinds))])
+		}
+		s.add(fmt.Sprintf("newaddr sc=%s a=0", scopes[sc].name))
+		s.add(fmt.Sprintf("newchange sc=%s a=0", scopes[sc].name))
+		s.createTx(sc, 0, false, "small", false)
+		s.tags["commit-failed"] = true
+	case 7: // the COMMIT of ImportAccount fails (eager mutator: known finding family; the case ends there)
+		if rng.Intn(2) == 0 {
+			s.add(fmt.Sprintf("newaddr sc=%s a=0", scopes[sc].name))
+		}
+		s.addThenCmp(fmt.Sprintf("import sc=%s name=%d key=%d cf=1", scopes[sc].name, s.freshName(), 1+rng.Intn(nImportKeys)))
+		s.tags["commit-failed-eager"] = true
+		s.ended = true
+	case 8: // the COMMIT of RenameAccount fails (eager mutator: known finding family; the case ends there)
+		a := 0
+		if rng.Intn(2) == 0 {
+			s.importReal(sc, s.freshName(), fmt.Sprint(1+rng.Intn(nImportKeys)))
+			a = s.last[sc]
+		}
+		s.addThenCmp(fmt.Sprintf("rename sc=%s a=%d name=%d cf=1", scopes[sc].name, a, s.freshName()))
+		s.tags["commit-failed-eager"] = true
+		s.ended = true
 	case 5: // failing dry runs of every kind, then a new own account takes the number
 		s.importDry(sc, 1, "1", "1")                       // duplicate name
 		s.importDry(sc, s.freshName(), "bad", "1")         // refused xpub
@@ -313,19 +364,19 @@ func (s *shadow) scenario(k int) {
 }
 
 func (engine) Generate(rng *rand.Rand, tier string) []core.Case {
-	nRandom, nScen := 150, 90
+	nRandom, nScen := 150, 108
 	if tier == "thorough" {
 		nRandom, nScen = 600, 300
 	}
 	var cases []core.Case
 	for i := 0; i < nScen; i++ {
 		s := newShadow(rng, rng.Intn(5) < 2)
-		s.scenario(i % 6)
-		for j := rng.Intn(6); j > 0; j-- {
+		s.scenario(i % 9)
+		for j := rng.Intn(6); j > 0 && !s.ended; j-- {
 			s.randomOp()
 		}
 		c := s.finish()
-		c.Tags = append(c.Tags, fmt.Sprintf("scenario-%d", i%6))
+		c.Tags = append(c.Tags, fmt.Sprintf("scenario-%d", i%9))
 		cases = append(cases, c)
 	}
 	for i := 0; i < nRandom; i++ {
@@ -347,7 +398,7 @@ func (engine) Generate(rng *rand.Rand, tier string) []core.Case {
 		"createtx sc=wpkh a=0 dry=2 amt=small nf=0", "createtx sc=wpkh a=0 dry=0 amt=mid nf=0", "createtx sc=wpkh a=0 dry=0 amt=small",
 		"fundpsbt sc=wpkh a=0 coin=x", "fundpsbt sc=wpkh a=0", "importdry sc=wpkh name=2 key=9 n=1", "importdry sc=wpkh name=2 key=1 n=99",
 		"importdry sc=wpkh name=2 key=1", "import sc=wpkh name=x key=1", "import sc=wpkh key=1", "rename sc=wpkh a=0", "rename sc=wpkh name=2",
-		"newacct sc=wpkh", "newacct name=3", "cmp",
+		"newacct sc=wpkh", "newacct name=3", "newaddr sc=wpkh a=0 cf=2", "cmp cf=x", "newaddr sc=wpkh a=0 cf=0", "cmp",
 	}})
 	return cases
 }
@@ -357,6 +408,7 @@ func (engine) Generate(rng *rand.Rand, tier string) []core.Case {
 func exhaustive() []core.Case {
 	alpha := []string{
 		"newaddr sc=wpkh a=0",
+		"newaddr sc=wpkh a=0 cf=1",
 		"newchange sc=wpkh a=0",
 		"createtx sc=wpkh a=0 dry=1 amt=small nf=0",
 		"createtx sc=wpkh a=0 dry=0 amt=small nf=0",
